@@ -96,6 +96,40 @@ def run(ctx) -> None:
             ctx.ok("R3", f"part {p} of field bid renders with {d} (canonicalises only when rendering)")
     ctx.check("R3", pats.get("BUILD") == "[0-9]+", "BUILD recogniser keeps leading zeros ([0-9]+)", "v2patterns.PART_PATTERNS['BUILD'] changed", f"{pats.get('BUILD')}", loc="src/bumpver/v2patterns.py")
 
+    # conversions of field values to int in the v2 engine must not reach bid: a loop `for k, v in D.items(): T[k] = int(v)`
+    # may only walk the reset items (whose keys exclude bid, R2), never the whole version record
+    n_conv = 0
+    for fq_ in sorted(f for f in ctx.effects.sites if f.startswith("v2version.")):
+        fn_ = prog.function(fq_)
+        for loop in [n for n in walk_no_nested(fn_.node) if isinstance(n, ast.For)]:
+            if not (isinstance(loop.target, ast.Tuple) and len(loop.target.elts) == 2 and all(isinstance(e, ast.Name) for e in loop.target.elts)):
+                continue
+            k_, v_ = loop.target.elts[0].id, loop.target.elts[1].id
+            stores = [st for st in ast.walk(loop) if isinstance(st, ast.Assign) and isinstance(st.targets[0], ast.Subscript) and unparse(st.targets[0].slice) == k_
+                      and any(isinstance(c, ast.Call) and unparse(c.func) == "int" and c.args and unparse(c.args[0]) == v_ for c in ast.walk(st.value))]
+            if not stores:
+                continue
+            n_conv += 1
+            src = shapes.inline(fn_, loop.iter, prog)
+            whole = any(isinstance(c, ast.Call) and isinstance(c.func, ast.Attribute) and c.func.attr in ("_asdict", "__dict__") for c in ast.walk(src)) or \
+                any(isinstance(c, ast.Call) and unparse(c.func) == "vars" for c in ast.walk(src))
+            # a dict that was update()d with / built from the record is the whole record too
+            base = loop.iter.func.value if isinstance(loop.iter, ast.Call) and isinstance(loop.iter.func, ast.Attribute) and loop.iter.func.attr == "items" else loop.iter
+            if isinstance(base, ast.Name):
+                for _st, tg, val in shapes.iter_assigns(fn_.node):
+                    if unparse(tg) == base.id and any(isinstance(c, ast.Call) and isinstance(c.func, ast.Attribute) and c.func.attr == "_asdict" for c in ast.walk(val)):
+                        whole = True
+            reset_only = any(isinstance(c, ast.Call) and unparse(c.func).endswith("_iter_reset_field_items") for c in ast.walk(src))
+            if whole:
+                ctx.bad("R3", f"{fq_}: every all-digit string field of the version record is converted to int - BUILD included",
+                        f"`for {k_}, {v_} in {unparse(loop.iter)}` walks the whole record: a zero-padded BUILD such as '01000' becomes 1000 "
+                        f"(rendered without its padding, the next id sorts before the old one)", loc=fn_.loc(loop), witness={"BUILD": "01000"},
+                        what=f"{fq_}: int conversion is limited to the reset items")
+            else:
+                ctx.require(reset_only, f"{fq_}: int conversion loop over `{unparse(loop.iter)}` - provenance not enumerated")
+                ctx.ok("R3", f"{fq_}: int conversion is limited to the reset items")
+    ctx.observe(f"int-converting field loops in v2version: {n_conv}")
+
     # ---------------------------------------------------------------- R4
     ctx.check("R4", len(pad) == 1, "_incr_numeric: one padding update of bid", "v2version._incr_numeric: padding step for short ids vanished", f"{len(pad)}", loc=inc.loc())
     if len(pad) == 1 and len(nxt) == 1:
